@@ -350,10 +350,10 @@ def doc_model_task(task):
             doc1 = Document(p1)
             doc1.save(p2)
             doc2 = Document(p2)
-        except Exception:  # noqa: BLE001  a failing re-save is reported by cycle()
-            return common.sub_result(sub, None)
-        for op, d in (("resave", doc1), ("resave2", doc2)):
-            lines.append((f"doc {op} {body}", docstate.dump_line(d, flags, interner), f"doc {op} <{kind} {name}>"))
+            for op, d in (("resave", doc1), ("resave2", doc2)):
+                lines.append((f"doc {op} {body}", docstate.dump_line(d, flags, interner), f"doc {op} <{kind} {name}>"))
+        except Exception:  # noqa: BLE001  a failing re-save is reported by cycle(); the `doc dump` line is still compared
+            stats["documents whose re-save raises (dump line only)"] = 1
         cells = sum(len(r) for fl in flags if fl is not None for r in fl)
         stats["tables modelled"] = sum(1 for fl in flags if fl is not None)
         stats["cells modelled"] = cells
